@@ -92,8 +92,12 @@ def _case(draw, tier):
         if with_uw:
             ncol = (len(r["cand"]["value"]) if r["cand"]["mode"] == "feat"
                     else len(r["X"]))
-            r["opts"]["utility_weight"] = [
-                round(draw(st.floats(0.1, 2.0)), 2) for _ in range(ncol)]
+            # any numbers are accepted as weights (multiplied with the
+            # utilities); zero and negative entries included
+            uwv = st.one_of(st.floats(0.1, 2.0).map(lambda v: round(v, 2)),
+                            st.floats(0.1, 2.0).map(lambda v: round(v, 2)),
+                            st.sampled_from([0.0, -0.5, -2.0, 1.0]))
+            r["opts"]["utility_weight"] = [draw(uwv) for _ in range(ncol)]
     return dict(entry=name, rounds=rounds, defaults=defaults,
                 model_state=model_state, seed=first["seed"])
 
